@@ -2,7 +2,12 @@ import ast
 
 from guppylang_internals.ast_util import find_nodes, get_type, loop_in_ast
 from guppylang_internals.checker.cfg_checker import CheckedBB, CheckedCFG
-from guppylang_internals.checker.core import Place, contains_subscript
+from guppylang_internals.checker.core import (
+    Place,
+    SubscriptAccess,
+    Variable,
+    contains_subscript,
+)
 from guppylang_internals.checker.errors.generic import (
     InvalidUnderDagger,
     UnsupportedError,
@@ -112,6 +117,11 @@ class BBUnitaryChecker(ast.NodeVisitor):
             raise GuppyError(InvalidUnderDagger(node, "Assignment"))
         if node.value is not None:
             self.visit(node.value)
+        # The targets may contain subscripts whose index expressions are evaluated
+        targets = node.targets if isinstance(node, ast.Assign) else [node.target]
+        for target in targets:
+            for tgt in find_nodes(lambda n: isinstance(n, PlaceNode), target):
+                self.visit(tgt)
 
     def visit_AnnAssign(self, node: ast.AnnAssign) -> None:
         self._check_assign(node)
@@ -127,6 +137,13 @@ class BBUnitaryChecker(ast.NodeVisitor):
             raise GuppyError(
                 UnsupportedError(node, "index access", True, "dagger context")
             )
+        # The index expressions of subscripts are not children of the node, they are
+        # stored in the place
+        place = node.place
+        while not isinstance(place, Variable):
+            if isinstance(place, SubscriptAccess):
+                self.visit(place.item_expr)
+            place = place.parent
 
 
 def check_cfg_unitary(
